@@ -31,11 +31,12 @@ def main():
     patch = os.path.join(out, "patch.diff")
     meta = json.load(open(os.path.join(out, "meta.json")))
     demo = os.path.join(out, "demo")
-    rc, _ = sh("git apply --check -R %s" % patch, cwd=wt)
+    # start from a clean scratch worktree (agents working in parallel worktrees share refs/stash: one
+    # agent's `git stash pop` can land another's change here), then apply exactly the delivered patch
+    sh("git checkout -- .", cwd=wt)
+    rc, o = sh("git apply %s" % patch, cwd=wt)
     if rc != 0:
-        rc, o = sh("git apply %s" % patch, cwd=wt)
-        if rc != 0:
-            print("cannot apply patch in worktree:", o); return 2
+        print("cannot apply patch in worktree:", o); return 2
     rc1, o1 = sh(demo_cmd, cwd=demo, env=env)
     sh("git apply -R %s" % patch, cwd=wt)
     rc0, o0 = sh(demo_cmd, cwd=demo, env=env)
